@@ -1061,6 +1061,225 @@ def flag_checks(ctx, H):
         ctx.count("z3:macro-refuses-invalid:" + type(e).__name__)
 
 
+
+# ---------------------------------------------------------------------------------------------
+# SymPy stage
+# ---------------------------------------------------------------------------------------------
+class GS:
+    def __init__(self, rng):
+        self.r = rng
+        self.X = ("var", "x", R)
+
+    def q(self, pool=None):
+        return num(R, self.r.choice(pool or [0, 1, -1, 2, -2, 3, Fraction(1, 2), Fraction(-1, 2), Fraction(1, 3), Fraction(3, 2), Fraction(2, 3)]))
+
+    def ex(self, d, var=True):
+        r = self.r
+        if d <= 0 or r.random() < 0.25:
+            return self.X if (var and r.random() < 0.6) else self.q()
+        op = r.choice(["add", "sub", "mul", "mul", "div", "div", "neg", "abs", "pow", "litdiv"])
+        s = lambda: self.ex(d - 1, var)
+        if op in ("add", "sub", "mul"):
+            return (op, R, s(), s())
+        if op == "div":
+            return ("div", s(), s())
+        if op == "litdiv":
+            return ("div", num(R, r.choice([1, 2, 3, 0])), num(R, r.choice([0, 2, 4, 6])))
+        if op == "pow":
+            return ("pow", R, s(), r.choice([2, 2, 3]))
+        return (op, R, s())
+
+    def natc(self, d):
+        r = self.r
+        if d <= 0 or r.random() < 0.3:
+            return num(N, r.choice([0, 1, 2, 3, 4, 5]))
+        return (r.choice(["add", "sub", "sub", "mul"]), N, self.natc(d - 1), self.natc(d - 1))
+
+    def rel(self, ty, a, b):
+        return (self.r.choice(["le", "lt", "ge", "gt"]), ty, a, b)
+
+    def plain(self):
+        """goal without interval condition"""
+        r, X = self.r, self.X
+        e, e2 = self.ex(2), self.ex(1)
+        one, zero = num(R, 1), num(R, 0)
+        fams = [
+            lambda: ("eq", R, e, e),
+            lambda: ("eq", R, ("add", R, e, zero), e),
+            lambda: ("eq", R, ("sub", R, e, e), zero),
+            lambda: ("eq", R, ("mul", R, num(R, 2), e), ("add", R, e, e)),
+            lambda: ("eq", R, ("add", R, e, e2), ("add", R, e2, e)),
+            lambda: ("eq", R, ("div", e, e), one),
+            lambda: ("eq", R, ("mul", R, e, ("div", one, e)), one),
+            lambda: ("eq", R, ("div", ("mul", R, e, e), e), e),
+            lambda: ("eq", R, ("mul", R, ("div", e, num(R, 2)), num(R, 2)), e),
+            lambda: ("eq", R, ("div", zero, e), zero),
+            lambda: ("eq", R, ("sub", R, ("div", e, e), one), zero),
+            lambda: ("eq", R, ("pow", R, e, 2), ("mul", R, e, e)),
+            lambda: ("eq", R, ("mul", R, ("add", R, X, one), ("add", R, X, one)), ("add", R, ("add", R, ("mul", R, X, X), ("mul", R, num(R, 2), X)), one)),
+            lambda: ("eq", R, ("div", e, zero), zero),
+            lambda: ("eq", R, ("div", one, ("sub", R, e, e)), zero),
+            lambda: ("eq", R, ("abs", R, ("div", one, zero)), zero),
+            lambda: ("eq", R, e, e2),
+            lambda: ("not", ("eq", R, e, ("add", R, e, one))),
+            lambda: ("not", ("eq", R, e, e2)),
+            lambda: ("not", ("eq", R, ("mul", R, ("add", R, X, one), ("add", R, X, one)), ("add", R, ("add", R, ("mul", R, X, X), ("mul", R, num(R, 2), X)), one))),
+            lambda: ("not", ("eq", R, ("mul", R, X, X), X)),
+            lambda: ("not", ("eq", R, ("div", one, zero), zero)),
+            lambda: ("not", ("eq", R, ("div", e, e), one)),
+            lambda: ("not", ("eq", R, ("div", e, e), zero)),
+            lambda: ("not", ("eq", R, ("add", R, e, zero), e)),
+            lambda: ("not", ("eq", R, self.ex(2, var=False), self.ex(2, var=False))),
+            lambda: ("not", ("eq", N, self.natc(2), self.natc(1))),
+            lambda: ("not", ("eq", N, ("sub", N, num(N, 2), num(N, 3)), num(N, 0))),
+            lambda: ("eq", N, self.natc(2), self.natc(1)),
+            lambda: ("eq", N, ("sub", N, num(N, 2), num(N, 3)), num(N, 0)),
+            lambda: self.rel(N, self.natc(2), self.natc(1)),
+            lambda: ("lt", N, ("sub", N, num(N, 3), num(N, 5)), num(N, 0)),
+            lambda: self.rel(R, self.ex(2, var=False), self.ex(1, var=False)),
+            lambda: self.rel(R, e, e2),
+            lambda: ("ge", R, ("abs", R, e), zero),
+            lambda: ("ge", R, ("pow", R, e, 2), zero),
+            lambda: ("le", R, e, e),
+            lambda: ("lt", R, e, ("add", R, e, one)),
+            lambda: ("ge", R, ("div", e, e), one),
+            lambda: ("gt", R, ("div", one, zero), num(R, -1)),
+            lambda: ("ge", R, ("div", one, ("abs", R, e)), zero),
+        ]
+        return r.choice(fams)()
+
+    def interval(self):
+        """(goal, cond)"""
+        r, X = self.r, self.X
+        pool = [0, 1, -1, 2, -2, Fraction(1, 2), Fraction(-1, 2), 3, Fraction(3, 2)]
+        l, u = sorted([Fraction(r.choice(pool)), Fraction(r.choice(pool))])
+        if r.random() < 0.08:
+            l, u = u, l
+        L, U = num(R, l), num(R, u)
+        if r.random() < 0.15:
+            U = ("div", num(R, u.numerator * 2), num(R, u.denominator * 2)) if u != 0 else U
+        kind = r.choice(["cint", "cint", "oint"])
+        cond = (kind, X, L, U)
+        one, zero = num(R, 1), num(R, 0)
+        c = self.q()
+        e = self.ex(2)
+        fams = [
+            lambda: (("ge" if kind == "cint" else "gt"), R, ("mul", R, ("sub", R, X, L), ("sub", R, U, X)), zero),
+            lambda: ("gt", R, ("mul", R, ("sub", R, X, L), ("sub", R, U, X)), zero),
+            lambda: ("ge", R, X, L),
+            lambda: ("gt", R, X, L),
+            lambda: ("le", R, X, U),
+            lambda: ("ge", R, ("mul", R, X, X), zero),
+            lambda: ("gt", R, ("mul", R, X, X), zero),
+            lambda: ("gt", R, ("div", one, X), zero),
+            lambda: ("ge", R, ("div", one, X), zero),
+            lambda: ("ge", R, ("div", X, X), one),
+            lambda: ("le", R, ("div", X, X), one),
+            lambda: ("ge", R, ("div", one, ("sub", R, X, c)), zero),
+            lambda: ("le", R, ("abs", R, X), num(R, max(abs(l), abs(u)))),
+            lambda: ("lt", R, ("abs", R, X), num(R, max(abs(l), abs(u)))),
+            lambda: ("ge", R, ("sub", R, one, ("pow", R, X, 2)), zero),
+            lambda: ("not", ("eq", R, X, c)),
+            lambda: ("not", ("eq", R, ("mul", R, X, X), c)),
+            lambda: ("not", ("eq", R, ("div", one, X), zero)),
+            lambda: ("not", ("eq", R, ("div", one, ("sub", R, X, c)), zero)),
+            lambda: ("not", ("eq", R, ("div", X, X), one)),
+            lambda: ("not", ("eq", R, ("div", X, X), zero)),
+            lambda: ("not", ("eq", R, ("mul", R, X, ("sub", R, X, one)), zero)),
+            lambda: ("not", ("eq", R, ("add", R, ("mul", R, X, X), one), zero)),
+            lambda: ("not", ("eq", R, e, self.ex(1))),
+            lambda: self.rel(R, e, self.ex(1)),
+            lambda: self.rel(R, self.ex(1, var=False), self.ex(1, var=False)),
+            lambda: self.rel(R, ("mul", R, ("sub", R, X, c), ("sub", R, X, self.q())), zero),
+        ]
+        return r.choice(fams)(), cond
+
+
+def grid_points(cond):
+    pts = set()
+    for p in range(-48, 49):
+        for q in (1, 2, 3, 4, 6, 12):
+            pts.add(Fraction(p, q))
+    if cond is not None:
+        v0 = Val({})
+        l, u = ev(cond[2], v0), ev(cond[3], v0)
+        for k in range(0, 25):
+            pts.add(l + (u - l) * Fraction(k, 24))
+        eps = Fraction(1, 1000)
+        pts |= {l + eps, u - eps, l, u}
+    return sorted(pts)
+
+
+def sympy_counterexample(goal, cond):
+    for pt in grid_points(cond):
+        v = Val({("x", R): pt})
+        try:
+            if cond is not None and ev(cond, v) is not True:
+                continue
+            if ev(goal, v) is False:
+                return pt
+        except (ZeroDivisionError, OverflowError):
+            continue
+    return None
+
+
+def call_sympy(H, goal, cond, mode, limit=60):
+    sw = H.sw
+    try:
+        with time_limit(limit):
+            g = H.term(goal)
+            if mode == "macro":
+                prevs = [] if cond is None else [H.Thm(H.term(cond))]
+                try:
+                    th = sw.SymPyMacro().eval(g, prevs)
+                    return "accept" if th.prop == g and not th.hyps else "raise:bad-thm"
+                except AssertionError:
+                    return "reject"
+            if cond is None:
+                r = sw.solve_goal(g)
+            else:
+                r = sw.solve_with_interval(g, H.term(cond))
+            # sympy relationals may be returned instead of bool: only a real True is an acceptance,
+            # but the macro uses truthiness -- mirror what `assert can_eval` would do
+            return "accept" if bool(r) else "reject"
+    except Timeout:
+        return "raise:Timeout"
+    except Exception as e:  # noqa
+        return "raise:" + type(e).__name__
+
+
+def sympy_stage(ctx, H):
+    rng = ctx.rng("sympy")
+    g = GS(rng)
+    n = ctx.scale(500, 5000)
+    nacc = 0
+    for idx in range(n):
+        if rng.random() < 0.5:
+            goal, cond = g.plain(), None
+        else:
+            goal, cond = g.interval()
+        mode = "macro" if idx % 4 == 3 else "direct"
+        res = call_sympy(H, goal, cond, mode)
+        ctx.case(("sympy", canon(goal), canon(cond) if cond else None), nontrivial=size(goal) >= 4)
+        ctx.count("sympy:%s:%s" % ("interval" if cond else "plain", res if not res.startswith("raise") else "fails-with-exception"))
+        if res.startswith("raise"):
+            ctx.count("sympy:exc:" + res[6:])
+        if idx < 2:
+            ctx.sample({"sympy_goal": str(H.term(goal)), "cond": str(H.term(cond)) if cond else None})
+        if res != "accept":
+            continue
+        nacc += 1
+        pt = sympy_counterexample(goal, cond)
+        if pt is not None:
+            ctx.violation("sympy:accepts-invalid:%s|%s" % (canon(goal), canon(cond) if cond else ""),
+                          "sympywrapper (%s) accepts %s%s, which is false in HOL at x = %s" % (
+                              mode, H.term(goal), " under " + str(H.term(cond)) if cond else "", pt),
+                          {"kind": "sympy", "goal": tolist(goal), "cond": tolist(cond) if cond else None, "mode": mode, "x": str(pt)})
+        else:
+            ctx.count("sympy:oracle:no-counterexample-on-grid")
+    ctx.log("sympy stage: %d goals, %d accepted" % (n, nacc))
+
+
 def run(ctx):
     H = Holpy(ctx)
     H.z3.set_param("timeout", ctx.scale(2000, 4000))
@@ -1072,6 +1291,7 @@ def run(ctx):
         ctx.sample({"z3_goal": str(H.term(x))})
     n = z3_check_goals(ctx, H, goals, ctx.rng("z3-oracle"), "gen")
     ctx.log("z3 stage: %d goals, %d accepted" % (len(goals), n))
+    sympy_stage(ctx, H)
     ctx.log(json.dumps(ctx.coverage["histogram"], indent=0, sort_keys=True))
 
 
